@@ -6,6 +6,7 @@ import SimVerif.Driver.Geom
 import SimVerif.Driver.Store
 import SimVerif.Driver.Trk
 import SimVerif.Driver.Kf
+import SimVerif.Driver.SMetric
 open SimVerif SimVerif.Wire SimVerif.Driver
 
 structure DState where
@@ -23,6 +24,7 @@ def step (st : DState) (line : String) : DState × String :=
   | "track" :: args => let (s, r) := StoreD.handleTrack st.store args impl; ({ st with store := s }, r)
   | "store" :: args => let (s, r) := StoreD.handleStore st.store args impl; ({ st with store := s }, r)
   | "trk" :: args => let (s, r) := TrkD.handle st.trk args impl; ({ st with trk := s }, r)
+  | "smetric" :: args => (st, SMetricD.handle args impl)
   | "kf" :: args => (st, KfD.handle args impl)
   | "box" :: args => (st, GeomD.handleBox args impl)
   | "geom" :: args => (st, GeomD.handleGeom args impl)
